@@ -1,6 +1,6 @@
 #!/bin/sh
 # runs the quick engine check of every claimed property on /repo's working tree (no evidence written); prints one SUMMARY line each
 cd "$(dirname "$0")/.."
-for p in $(python3 -c "import json;print(' '.join(c['property'] for c in json.load(open('MANIFEST.json'))['checks']))"); do
+for p in $(python3 -c "import json;print(' '.join(c['property_id'] for c in json.load(open('MANIFEST.json'))['checks']))"); do
   bin/vcheck check -prop $p -no-evidence 2>&1 | grep "^SUMMARY\|^FAILED\|ENGINE" | cut -c1-260
 done
